@@ -11,6 +11,7 @@ import (
 	"strings"
 	"time"
 
+	"golang.org/x/crypto/ssh"
 	"golang.org/x/crypto/ssh/agent"
 
 	"github.com/theparanoids/ysshra/agent/shimagent"
@@ -30,6 +31,7 @@ type c20Case struct {
 	Schedule []int    `json:",omitempty"`
 	Bound    int      `json:",omitempty"`
 	Note     string   `json:",omitempty"`
+	Hung     bool     `json:",omitempty"` // level 2: one more connection whose request (a signature) hangs in the underlying agent forever
 }
 
 type waitBroadcaster interface {
@@ -195,6 +197,10 @@ func c20Level2(k c20Case, prefix []int) (*sched.Scheduler, []int, []bool, int, [
 		panic(err)
 	}
 	n := len(k.Waiters) + len(k.Senders)
+	if k.Hung {
+		n++
+		ua.PlanByCode[13] = map[int]string{0: uagent.FaultHang}
+	}
 	released := make([]bool, len(k.Waiters))
 	responses := make([]string, n)
 	var bodies []func()
@@ -246,11 +252,28 @@ func c20Level2(k c20Case, prefix []int) (*sched.Scheduler, []int, []bool, int, [
 			ce.Close()
 		})
 	}
+	if k.Hung {
+		hi := n - 1
+		bodies = append(bodies, func() {
+			ce := clientEnds[hi]
+			req := ssh.Marshal(struct {
+				K []byte `sshtype:"13"`
+				D []byte
+				F uint32
+			}{fix.Pub(fix.Ed(0)).Marshal(), []byte("never answered"), 0})
+			ce.Write(vnet.Frame(req))
+			readFrame(ce) // blocks for ever: the underlying agent never answers
+			ce.Close()
+		})
+	}
 	cleanupFrom := -1
 	relAtQ := make([]bool, len(released))
 	s.OnQuiescent = func(blocked []int) []func() {
 		cleanupFrom = len(s.Trace)
 		copy(relAtQ, released)
+		if k.Hung {
+			return nil // the shim's lock is held for ever by the hung operation; no clean-up phase
+		}
 		wb := reflect.ValueOf(srv).Elem().FieldByName("ShimAgent").Interface().(waitBroadcaster)
 		var more []func()
 		seen := map[int]bool{}
@@ -294,7 +317,7 @@ func c20Explore(c *ev.Ctx, k c20Case, bound int, dev ...int) {
 		kk := k
 		kk.Schedule = sched.Choices(s.Branches)
 		key, desc := c20Oracle(c, kk, s, wt, rel, reqKind, cf)
-		if key == "" && len(s.Deadlocked) > 0 {
+		if key == "" && len(s.Deadlocked) > 0 && !k.Hung {
 			var names []string
 			for _, id := range s.Deadlocked {
 				names = append(names, fmt.Sprint(id))
@@ -343,7 +366,7 @@ func traceString(s *sched.Scheduler, max int) string {
 }
 
 func checkC20(c *ev.Ctx) {
-	c.Rule("engine E2 on the real shimagent.Server (Wait/Broadcast) and the real yubiagent server: level 1 = W waiter threads + S broadcaster threads over codes {5,11,39,40,255}: every assignment for (W,S) in {(1,1),(2,1),(1,2)} with all interleavings (unbounded), (2,2),(3,1),(3,2) over codes {5,11} with preemption bound 2 (thorough 3); level 2 = clients on scheduler-visible pipes, one ServeAgent thread per connection, waiters send wait requests and senders send list/add-hardware-certificate/wait/remove-all requests, preemption bound 2 and at most 3 departures from the canonical lowest-id-first order at any branch (thorough: 3 and 4); level 3 = all 256 codes sequentially. Oracle on the recorded trace: released => a broadcast of that code after registration; a matching request after registration => released; codes >= 40 never register; after a clean-up broadcast every thread finishes. states = executions (complete interleavings), transitions = scheduling events. non-trivial = execution in which a waiter registered; distinct by (scenario, schedule)")
+	c.Rule("engine E2 on the real shimagent.Server (Wait/Broadcast) and the real yubiagent server: level 1 = W waiter threads + S broadcaster threads over codes {5,11,39,40,255}: every assignment for (W,S) in {(1,1),(2,1),(1,2)} with all interleavings (unbounded), (2,2),(3,1),(3,2) over codes {5,11} with preemption bound 2 (thorough 3); level 2 = clients on scheduler-visible pipes, one ServeAgent thread per connection, waiters send wait requests and senders send list/add-hardware-certificate/wait/remove-all requests (two scenarios with a further connection whose signature request hangs in the underlying agent for ever, holding the shim's lock), preemption bound 2 and at most 3 departures from the canonical lowest-id-first order at any branch (thorough: 3 and 4); level 3 = all 256 codes sequentially. Oracle on the recorded trace: released => a broadcast of that code after registration; a matching request after registration => released; codes >= 40 never register; after a clean-up broadcast every thread finishes. states = executions (complete interleavings), transitions = scheduling events. non-trivial = execution in which a waiter registered; distinct by (scenario, schedule)")
 	c.Assume("condition variable i of the shim belongs to message code i (ids are assigned in creation order; checked by the registers-on-wrong-code oracle)", "vsync.Cond has the semantics of sync.Cond without spurious wake-ups (litmus-tested)")
 	if c.ReplayCase != nil {
 		var k c20Case
@@ -442,6 +465,8 @@ func checkC20(c *ev.Ctx) {
 		{Level: 2, Waiters: []int{11, 11}, Senders: []int{11}},
 		{Level: 2, Waiters: []int{11, 19}, Senders: []int{11}},
 		{Level: 2, Waiters: []int{40}, Senders: []int{11}},
+		{Level: 2, Waiters: []int{11}, Senders: []int{11}, Hung: true},
+		{Level: 2, Waiters: []int{19}, Senders: []int{19}, Hung: true},
 	} {
 		c20Explore(c, sc, b2, d2)
 	}
